@@ -2,11 +2,13 @@ package lab
 
 import (
 	"fmt"
+	"sync"
 	"time"
 
 	coercion "github.com/element-of-surprise/coercion"
 	"github.com/element-of-surprise/coercion/workflow"
 	"github.com/element-of-surprise/coercion/workflow/context"
+	"github.com/element-of-surprise/coercion/workflow/storage"
 
 	"verifharness/vprop"
 )
@@ -53,6 +55,60 @@ type StoreCase struct {
 	// WithMaxSubmit (1: 2 s, 2: 100 h; it concerns Start, not recovery), (OptOrder/3)%2 puts WithMaxLastUpdate last
 	// instead of first (WithNoRecovery, when drawn, goes with the others).
 	OptOrder int `json:",omitempty"`
+	// NeedsRecovery: the store is handed to coercion.New behind a vault that implements storage.Recovery ("a Vault that
+	// must do some recovery operation before it can be used after a failure or restart") and that, until its Recovery
+	// has run, still lists every terminal plan of the store as Running in a status search — the way the cosmosdb vault's
+	// separately written search entries lag behind the plan documents after a crash.
+	NeedsRecovery bool `json:",omitempty"`
+}
+
+// needsRecoveryVault is the vault of the NeedsRecovery class.
+type needsRecoveryVault struct {
+	storage.Vault
+	mu        sync.Mutex
+	recovered bool
+	stale     []storage.ListResult
+	served    int
+}
+
+func (v *needsRecoveryVault) Recovery(ctx context.Context) error {
+	v.mu.Lock()
+	v.recovered = true
+	v.mu.Unlock()
+	if r, ok := v.Vault.(storage.Recovery); ok {
+		return r.Recovery(ctx)
+	}
+	return nil
+}
+
+func (v *needsRecoveryVault) Search(ctx context.Context, f storage.Filters) (chan storage.Stream[storage.ListResult], error) {
+	ch, err := v.Vault.Search(ctx, f)
+	wantsRunning := false
+	for _, st := range f.ByStatus {
+		if st == workflow.Running {
+			wantsRunning = true
+		}
+	}
+	v.mu.Lock()
+	recovered := v.recovered
+	v.mu.Unlock()
+	if err != nil || recovered || !wantsRunning || len(f.ByIDs)+len(f.ByGroupIDs) > 0 || len(v.stale) == 0 {
+		return ch, err
+	}
+	out := make(chan storage.Stream[storage.ListResult], 1)
+	go func() {
+		defer close(out)
+		for _, e := range v.stale {
+			out <- storage.Stream[storage.ListResult]{Result: e}
+		}
+		for r := range ch {
+			out <- r
+		}
+	}()
+	v.mu.Lock()
+	v.served++
+	v.mu.Unlock()
+	return out, nil
 }
 
 func shiftState(s *workflow.State, d time.Duration) {
@@ -236,6 +292,19 @@ func RunStoreCase(c *StoreCase, res *vprop.Result) {
 		if err != nil {
 			res.Skip = true
 			return
+		}
+	}
+	if c.NeedsRecovery && c.FaultAt == 0 {
+		nv := &needsRecoveryVault{Vault: v}
+		for i, p := range created {
+			if b := before[i]; b != nil && finished(status(b.State)) {
+				st := workflow.State{Status: workflow.Running, Start: b.State.Start}
+				nv.stale = append(nv.stale, storage.ListResult{ID: p.ID, GroupID: b.GroupID, Name: b.Name, Descr: b.Descr, SubmitTime: b.SubmitTime, State: &st})
+			}
+		}
+		if len(nv.stale) > 0 {
+			res.Label("vault-needs-recovery:terminal-plan-listed-running-until-repaired")
+			v = nv
 		}
 	}
 	var others []coercion.Option
